@@ -377,6 +377,8 @@ EXTRA_SECTIONS.append(_buildtop_section)
 STATUS = OUT.parent.parent / ".lake" / "extract_status.json"
 from extract_catalog import section as catalog_section  # M9b / C20
 EXTRA_SECTIONS.append(catalog_section)
+from extract_expr import expr_section  # noqa: E402  (C16)
+EXTRA_SECTIONS.append(expr_section)
 
 
 def main(write: bool = True) -> int:
